@@ -192,7 +192,7 @@ package statefulset
 //@ spec func inRangeE(o int, rc int, E set[int]) bool = 0 <= o && o < rc && !E[o]
 
 //@ func defaultStatefulSetControl.updateStatefulSet
-//@   lemmas count_bound, count_store, count_ext, count_mono, count_member, count_full
+//@   lemmas count_bound, count_store, count_ext, count_mono, count_member, count_full, count_all, count_missing
 //@   profiles defaulted, crd
 //@   results statusp, err
 //@   requires ssc != nil && set != nil && currentRevision != nil && updateRevision != nil
@@ -223,6 +223,7 @@ package statefulset
 //@   ghost var curL set[int]        -- curI / updI minus the pods deleted so far in this reconcile
 //@   ghost var updL set[int]
 //@   ghost var nCreated int = 0
+//@   ghost var firstDel int = 0 - 1  -- snapshot index of the first snapshot pod deleted in this reconcile (witness)
 //@   ghost var crCur int = 0
 //@   ghost var crUpd int = 0
 //@   at call isRunningAndReady#1 before: ghost sidx[pods[i]] = i; ghost liveI[i] = true; ghost rdyI[i] = isRunningAndReadyS(pods[i])
@@ -232,6 +233,8 @@ package statefulset
 //@   at call DeleteStatefulPod#1 before: assert [C12] counted1: 0 <= sidx[replicas[i]] && sidx[replicas[i]] < len(pods) && pods[sidx[replicas[i]]] == replicas[i] && liveI[sidx[replicas[i]]] && curL[sidx[replicas[i]]] == (!isTerminatingS(replicas[i]) && revOf(replicas[i]) == gCurRev) && updL[sidx[replicas[i]]] == (!isTerminatingS(replicas[i]) && revOf(replicas[i]) == gUpdRev) && !rdyI[sidx[replicas[i]]]
 //@   at call DeleteStatefulPod#2 before: assert [C12] counted2: 0 <= sidx[condemned[target]] && sidx[condemned[target]] < len(pods) && pods[sidx[condemned[target]]] == condemned[target] && curL[sidx[condemned[target]]] == (revOf(condemned[target]) == gCurRev) && updL[sidx[condemned[target]]] == (revOf(condemned[target]) == gUpdRev)
 //@   at call DeleteStatefulPod#3 before: assert [C12] counted3: inSnap(replicas[target]) ==> 0 <= sidx[replicas[target]] && sidx[replicas[target]] < len(pods) && curL[sidx[replicas[target]]] == (revOf(replicas[target]) == gCurRev)
+//@   at call DeleteStatefulPod#1 after: ghost firstDel = ite(firstDel < 0, sidx[replicas[i]], firstDel)
+//@   at call DeleteStatefulPod#2 after: ghost firstDel = ite(firstDel < 0, sidx[condemned[target]], firstDel)
 //@   at call DeleteStatefulPod#1 after: ghost liveI[sidx[replicas[i]]] = false; ghost curL[sidx[replicas[i]]] = false; ghost updL[sidx[replicas[i]]] = false
 //@   at call CreateStatefulPod#1 after: ghost nCreated = nCreated + 1; ghost crCur = crCur + ite(revOf(replicas[i]) == gCurRev, 1, 0); ghost crUpd = crUpd + ite(revOf(replicas[i]) == gUpdRev, 1, 0)
 //@   at call DeleteStatefulPod#2 after: ghost curL[sidx[condemned[target]]] = false; ghost updL[sidx[condemned[target]]] = false
@@ -240,12 +243,16 @@ package statefulset
 //@   at exit: assert [C12] acctrdyexit: err == nil && !gDeleting ==> status.ReadyReplicas == count(rdyI, 0, len(pods))
 //@   at exit: assert [C12] acctcurexit: err == nil && !gDeleting ==> status.CurrentReplicas == count(curL, 0, len(pods)) + crCur
 //@   at exit: assert [C12] acctupdexit: err == nil && !gDeleting ==> status.UpdatedReplicas == count(updL, 0, len(pods)) + crUpd
+//@   at exit: assert [C12] replcreatedexit: err == nil && !gDeleting ==> (forall k int :: {liveI[k]} 0 <= k && k < len(pods) && !liveI[k] ==> nCreated >= 1) && ((nCreated >= 1 || (exists p int :: gDeleted[p])) ==> gNact >= 1)
+//@   at exit: assert [C12] actionwitnessexit: err == nil && !gDeleting && gUpdDeletes == 0 ==> (gNact >= 1 ==> nCreated >= 1 || firstDel >= 0) && (firstDel >= 0 ==> firstDel < len(pods) && gDeleted[pods[firstDel]])
+//@   at exit: assert [C12] acctliveexit: err == nil && !gDeleting ==> (forall k int :: {pods[k]} {updL[k]} {liveI[k]} 0 <= k && k < len(pods) ==> updL[k] == (updI[k] && !gDeleted[pods[k]]))
 //@   at exit: assert [C12] acctsubexit: err == nil && !gDeleting ==> 0 <= crCur && crCur <= nCreated && 0 <= crUpd && crUpd <= nCreated && (forall k int :: {liveI[k]} 0 <= k && k < len(pods) && (rdyI[k] || curL[k] || updL[k]) ==> liveI[k])
 //@   ensures statusp != nil || err != nil
 //@   profile defaulted ensures [C12] bounds: err == nil ==> 0 <= statusp.ReadyReplicas && statusp.ReadyReplicas <= statusp.Replicas && 0 <= statusp.CurrentReplicas && statusp.CurrentReplicas <= statusp.Replicas && 0 <= statusp.UpdatedReplicas && statusp.UpdatedReplicas <= statusp.Replicas
 //@   profile defaulted ensures [C12] generation: statusp != nil ==> statusp.ObservedGeneration == set.Generation && statusp.CurrentRevision == currentRevision.Name && statusp.UpdateRevision == updateRevision.Name
 //@   profile defaulted ensures [C12] census: err == nil && gNact == 0 ==> statusp.Replicas == len(pods) && statusp.ReadyReplicas == count(rdyI, 0, len(pods)) && statusp.CurrentReplicas == count(curI, 0, len(pods)) && statusp.UpdatedReplicas == count(updI, 0, len(pods))
 //@   profile defaulted ensures [C12] censussets: err == nil ==> (forall k int :: {pods[k]} 0 <= k && k < len(pods) ==> (rdyI[k] <==> isRunningAndReadyS(pods[k])) && (curI[k] <==> (isCreatedS(pods[k]) && !isTerminatingS(pods[k]) && revOf(pods[k]) == currentRevision.Name)) && (updI[k] <==> (isCreatedS(pods[k]) && !isTerminatingS(pods[k]) && revOf(pods[k]) == updateRevision.Name)))
+//@   profile defaulted ensures [C12] promotable: err == nil && !gDeleting && statusp.UpdatedReplicas == statusp.Replicas && statusp.ReadyReplicas == statusp.Replicas ==> gNact == 0 && (forall k int :: {pods[k]} 0 <= k && k < len(pods) ==> isRunningAndReadyS(pods[k]) && !isTerminatingS(pods[k]) && revOf(pods[k]) == updateRevision.Name)
 //@   profile defaulted ensures [C03] replaced: err == nil ==> (forall o int :: {gReplaceDue[o]} gReplaceDue[o] ==> gCreated[o])
 //@   profile defaulted ensures [C05] oneordinal: gMonotonic ==> gNact <= 2 && (gNact == 2 ==> (exists o int :: gReplaceDue[o] && gCreated[o] && gActOrd == o))
 //@   profile defaulted ensures [C07,C14] oneupdate: gUpdDeletes <= 1
@@ -256,7 +263,7 @@ package statefulset
 //@     invariant len(replicas) == replicaCount && 0 <= len(condemned) && len(condemned) <= i
 //@     invariant statusrange: status.Replicas == i && 0 <= status.ReadyReplicas && status.ReadyReplicas <= i && 0 <= status.CurrentReplicas && status.CurrentReplicas <= i && 0 <= status.UpdatedReplicas && status.UpdatedReplicas <= i
 //@     invariant [C01,C03,C04,C05,C07,C12,C14] placedsnap: forall o int :: {replicas[o]} 0 <= o && o < replicaCount && replicas[o] != nil ==> inSnap(replicas[o]) && ordOf(replicas[o]) == o
-//@     invariant [C01,C03,C04] placeddesired: forall o int :: {replicas[o]} 0 <= o && o < replicaCount && replicas[o] != nil ==> desiredG(o)
+//@     invariant [C01,C04] placeddesired: forall o int :: {replicas[o]} 0 <= o && o < replicaCount && replicas[o] != nil ==> desiredG(o)
 //@     invariant [C03,C05,C14] condemnedok: forall j int :: {condemned[j]} 0 <= j && j < len(condemned) ==> condemned[j] != nil && condemnedP(condemned[j])
 //@     invariant [C01,C04,C05,C07,C14] occupied: forall k int :: {pods[k]} 0 <= k && k < i && desiredG(ordOf(pods[k])) ==> replicas[ordOf(pods[k])] == pods[k]
 //@     invariant [C05,C14] condemnedall: forall k int :: {pods[k]} 0 <= k && k < i && condemnedP(pods[k]) ==> 0 <= cpos[k] && cpos[k] < len(condemned) && condemned[cpos[k]] == pods[k]
@@ -269,7 +276,7 @@ package statefulset
 //@     invariant alloc: forall o int :: {replicas[o]} 0 <= o && o < replicaCount ==> allocated(replicas[o])
 //@     invariant [C01,C03,C04,C05,C07,C12,C14] placedord: forall o int :: {replicas[o]} 0 <= o && o < replicaCount && replicas[o] != nil ==> ordOf(replicas[o]) == o && (inSnap(replicas[o]) || isNewP(replicas[o]))
 //@     invariant [C12] labelsalloc: forall o int :: {replicas[o]} 0 <= o && o < replicaCount && replicas[o] != nil ==> allocated(replicas[o].Labels)
-//@     invariant [C03] snapdesired: forall o int :: {replicas[o]} 0 <= o && o < replicaCount && replicas[o] != nil && inSnap(replicas[o]) ==> desiredG(o)
+//@     invariant [C01,C04] snapdesired: forall o int :: {replicas[o]} 0 <= o && o < replicaCount && replicas[o] != nil && inSnap(replicas[o]) ==> desiredG(o)
 //@     invariant [C01,C04] onlydesired: forall o int :: {replicas[o]} 0 <= o && o < replicaCount && replicas[o] != nil ==> desiredG(o) && (inSnap(replicas[o]) || vacant(o))
 //@     invariant [C01,C04,C05,C07,C14] filled: forall o int :: {replicas[o]} 0 <= o && o < ord && desiredG(o) ==> replicas[o] != nil
 //@     invariant [C01,C04,C05,C07,C14] occupied: forall k int :: {pods[k]} 0 <= k && k < len(pods) && desiredG(ordOf(pods[k])) ==> replicas[ordOf(pods[k])] == pods[k]
@@ -289,7 +296,7 @@ package statefulset
 //@     invariant statusrange: 0 - i <= status.Replicas && status.Replicas <= len(pods) + i && 0 - i <= status.CurrentReplicas && status.CurrentReplicas <= len(pods) + i && 0 - i <= status.UpdatedReplicas && status.UpdatedReplicas <= len(pods) + i
 //@     invariant [C01,C03,C04,C05,C07,C12,C14] placedord: forall o int :: {replicas[o]} {count(gS, 0, o)} 0 <= o && o < replicaCount && replicas[o] != nil ==> ordOf(replicas[o]) == o && (inSnap(replicas[o]) || isNewP(replicas[o]))
 //@     invariant [C12] labelsalloc: forall o int :: {replicas[o]} 0 <= o && o < replicaCount && replicas[o] != nil ==> allocated(replicas[o].Labels)
-//@     invariant [C03] snapdesired: forall o int :: {replicas[o]} 0 <= o && o < replicaCount && replicas[o] != nil && inSnap(replicas[o]) ==> desiredG(o)
+//@     invariant [C01,C04] snapdesired: forall o int :: {replicas[o]} 0 <= o && o < replicaCount && replicas[o] != nil && inSnap(replicas[o]) ==> desiredG(o)
 //@     invariant [C01,C04] onlydesired: forall o int :: {replicas[o]} 0 <= o && o < replicaCount && replicas[o] != nil ==> desiredG(o)
 //@     invariant [C01,C04] pending: forall o int :: {replicas[o]} i <= o && o < replicaCount && replicas[o] != nil && !inSnap(replicas[o]) ==> vacant(o)
 //@     invariant [C01,C04,C05,C07,C14] filled: forall o int :: {replicas[o]} {count(gS, 0, o)} 0 <= o && o < replicaCount && desiredG(o) ==> replicas[o] != nil
@@ -308,6 +315,9 @@ package statefulset
 //@     invariant [C12] condemnedkept: forall j int :: {condemned[j]} 0 <= j && j < len(condemned) ==> !gDeleted[condemned[j]]
 //@     invariant [C12] createdcounted: forall o int :: {replicas[o]} 0 <= o && o < replicaCount && replicas[o] != nil && !inSnap(replicas[o]) && gCreated[o] ==> (revOf(replicas[o]) == gCurRev ==> crCur >= 1) && nCreated >= 1
 //@     invariant [C12] nocreate: gNact >= 0 && nCreated >= 0 && (gNact == 0 ==> nCreated == 0 && (forall p int :: {gDeleted[p]} !gDeleted[p]))
+//@     invariant [C12] replcreated: forall k int :: {liveI[k]} 0 <= k && k < len(pods) && !liveI[k] ==> nCreated >= 1
+//@     invariant [C12] anyaction: (nCreated >= 1 || (exists p int :: gDeleted[p])) ==> gNact >= 1
+//@     invariant [C12] actionwitness: (gNact >= 1 ==> nCreated >= 1 || firstDel >= 0) && (firstDel >= 0 ==> firstDel < len(pods) && gDeleted[pods[firstDel]])
 //@     invariant [C12] newcreated: forall o int :: {replicas[o]} 0 <= o && o < i && replicas[o] != nil && !inSnap(replicas[o]) ==> gCreated[o]
 //@     invariant [C14] burstcreated: !gMonotonic ==> (forall o int :: {gCreated[o]} 0 <= o && o < i && vacant(o) ==> gCreated[o])
 //@   loop 6 "for target := len(condemned) - 1; target >= 0"
@@ -326,6 +336,9 @@ package statefulset
 //@     invariant [C12] notdeleted: forall o int :: {replicas[o]} 0 <= o && o < replicaCount && replicas[o] != nil && inSnap(replicas[o]) ==> !gDeleted[replicas[o]]
 //@     invariant [C12] condemnedkept: forall j int :: {condemned[j]} 0 <= j && j <= target ==> !gDeleted[condemned[j]]
 //@     invariant [C12] nocreate: gNact >= 0 && nCreated >= 0 && (gNact == 0 ==> nCreated == 0 && (forall p int :: {gDeleted[p]} !gDeleted[p]))
+//@     invariant [C12] replcreated: forall k int :: {liveI[k]} 0 <= k && k < len(pods) && !liveI[k] ==> nCreated >= 1
+//@     invariant [C12] anyaction: (nCreated >= 1 || (exists p int :: gDeleted[p])) ==> gNact >= 1
+//@     invariant [C12] actionwitness: (gNact >= 1 ==> nCreated >= 1 || firstDel >= 0) && (firstDel >= 0 ==> firstDel < len(pods) && gDeleted[pods[firstDel]])
 //@     invariant [C14] burstdeleted: !gMonotonic ==> (forall t int :: {condemned[t]} target < t && t < len(condemned) && !isTerminatingS(condemned[t]) ==> gDeleted[condemned[t]])
 //@   at loopstart 7: assert [C05] allhealthy: gMonotonic ==> (forall o int32 :: {count(gS, 0, o)} desiredG(o) ==> snapHealthyAt(o))
 //@   at loopstart 7: assert [C05] nocondemned: gMonotonic ==> (forall k int :: {gSnap[k]} 0 <= k && k < len(gSnap) ==> !condemnedP(gSnap[k]))
@@ -338,3 +351,59 @@ package statefulset
 //@     invariant target <= len(replicas) - 1 && gUpdDeletes == 0 && (gMonotonic ==> gNact == 0)
 //@     invariant [C12] statusfixed: status.Replicas == old7Replicas && status.ReadyReplicas == old7Ready && status.CurrentReplicas == old7Current && status.UpdatedReplicas == old7Updated
 //@     invariant [C07] higherupdated: forall o int :: {replicas[o]} {count(gS, 0, o)} target < o && o < len(replicas) && replicas[o] != nil ==> revOf(replicas[o]) == gUpdRev && isHealthyS(replicas[o])
+
+// ---- status (C12) -----------------------------------------------------------------------------------
+//@ spec func statusBounds(s *apps.StatefulSetStatus) bool = 0 <= s.ReadyReplicas && s.ReadyReplicas <= s.Replicas && 0 <= s.CurrentReplicas && s.CurrentReplicas <= s.Replicas && 0 <= s.UpdatedReplicas && s.UpdatedReplicas <= s.Replicas
+
+//@ func completeRollingUpdate
+//@   requires set != nil && status != nil
+//@   modifies status.CurrentReplicas, status.CurrentRevision
+//@   noalloc
+//@   ensures [C12] promote: status.CurrentRevision != old(status.CurrentRevision) ==> status.CurrentRevision == status.UpdateRevision && set.Spec.UpdateStrategy.Type == "RollingUpdate" && old(status.UpdatedReplicas) == old(status.Replicas) && old(status.ReadyReplicas) == old(status.Replicas)
+//@   ensures [C12] exact: status.CurrentReplicas == old(ite(promotes(set, status), status.UpdatedReplicas, status.CurrentReplicas)) && status.CurrentRevision == old(ite(promotes(set, status), status.UpdateRevision, status.CurrentRevision))
+//@   ensures [C12] boundskept: old(statusBounds(status)) ==> statusBounds(status)
+//@   ensures [C12] rest: status.Replicas == old(status.Replicas) && status.ReadyReplicas == old(status.ReadyReplicas) && status.UpdatedReplicas == old(status.UpdatedReplicas) && status.ObservedGeneration == old(status.ObservedGeneration) && status.UpdateRevision == old(status.UpdateRevision)
+
+//@ func inconsistentStatus
+//@   requires set != nil && status != nil
+//@   pure
+//@   ensures [C12] result == (status.ObservedGeneration > set.Status.ObservedGeneration || status.Replicas != set.Status.Replicas || status.CurrentReplicas != set.Status.CurrentReplicas || status.ReadyReplicas != set.Status.ReadyReplicas || status.UpdatedReplicas != set.Status.UpdatedReplicas || status.CurrentRevision != set.Status.CurrentRevision || status.UpdateRevision != set.Status.UpdateRevision)
+
+//@ ghost global gStatusWrites int   -- status writes issued in this reconcile
+
+//@ interface StatefulSetStatusUpdaterInterface.UpdateStatefulSetStatus
+//@   params ssu, set, status
+//@   requires set != nil && status != nil
+//@   profile defaulted requires [C12] truthful: statusBounds(status)
+//@   profile defaulted requires [C12] generation: status.ObservedGeneration == set.Generation && status.ObservedGeneration >= set.Status.ObservedGeneration
+//@   profile defaulted requires [C10] copyonly: set >= gAlloc0
+//@   modifies set.Status, gStatusWrites
+//@   ensures gStatusWrites == old(gStatusWrites) + 1
+
+//@ func defaultStatefulSetControl.updateStatefulSetStatus
+//@   profiles defaulted, crd
+//@   requires ssc != nil && set != nil && status != nil && ssc.statusUpdater != nil
+//@   profile defaulted requires statusBounds(status) && status.ObservedGeneration == set.Generation
+//@   profile defaulted requires storedvalid: set.Status.ObservedGeneration <= set.Generation
+//@   at entry: ghost gAlloc0 = allocMark()
+//@   modifies status.CurrentReplicas, status.CurrentRevision, gStatusWrites, gAlloc0
+//@   profile defaulted ensures [C12] promote: status.CurrentRevision != old(status.CurrentRevision) ==> status.CurrentRevision == status.UpdateRevision && set.Spec.UpdateStrategy.Type == "RollingUpdate" && old(status.UpdatedReplicas) == old(status.Replicas) && old(status.ReadyReplicas) == old(status.Replicas)
+//@   profile defaulted ensures [C12] quiet: !old(inconsistentAfter(set, status)) ==> gStatusWrites == old(gStatusWrites)
+//@   profile defaulted ensures [C12] atmostone: gStatusWrites <= old(gStatusWrites) + 1
+//@   profile defaulted ensures [C09] reported: result == nil ==> (gStatusWrites == old(gStatusWrites) || gStatusWrites == old(gStatusWrites) + 1)
+// inconsistentAfter: the status differs from the stored one once a completed rolling update has been folded in
+//@ spec func promotes(set *apps.StatefulSet, s *apps.StatefulSetStatus) bool = set.Spec.UpdateStrategy.Type == "RollingUpdate" && s.UpdatedReplicas == s.Replicas && s.ReadyReplicas == s.Replicas
+//@ spec func inconsistentAfter(set *apps.StatefulSet, s *apps.StatefulSetStatus) bool = s.ObservedGeneration > set.Status.ObservedGeneration || s.Replicas != set.Status.Replicas || ite(promotes(set, s), s.UpdatedReplicas, s.CurrentReplicas) != set.Status.CurrentReplicas || s.ReadyReplicas != set.Status.ReadyReplicas || s.UpdatedReplicas != set.Status.UpdatedReplicas || ite(promotes(set, s), s.UpdateRevision, s.CurrentRevision) != set.Status.CurrentRevision || s.UpdateRevision != set.Status.UpdateRevision
+
+//@ func realStatefulSetStatusUpdater.UpdateStatefulSetStatus
+//@   profiles defaulted, crd
+//@   requires ssu != nil && set != nil && status != nil && ssu.client != nil && ssu.setLister != nil
+//@   profile defaulted requires statusBounds(status)
+//@   modifies set.Status
+//@   loop 1 "func literal"
+//@     invariant set != nil && (set == old(set) || fresh(set))
+//@ extern github.com/pingcap/advanced-statefulset/client/client/clientset/versioned/typed/apps/v1:StatefulSetInterface.UpdateStatus@realStatefulSetStatusUpdater.UpdateStatefulSetStatus
+//@   params c, ctx, obj, opts
+//@   requires obj != nil
+//@   profile defaulted requires [C12] truthful: obj.Status == deref(status) && 0 <= obj.Status.ReadyReplicas && obj.Status.ReadyReplicas <= obj.Status.Replicas && 0 <= obj.Status.CurrentReplicas && obj.Status.CurrentReplicas <= obj.Status.Replicas && 0 <= obj.Status.UpdatedReplicas && obj.Status.UpdatedReplicas <= obj.Status.Replicas
+//@   ensures result1 == nil ==> result0 != nil
